@@ -248,3 +248,24 @@ func ItemsAcrossPointerWriter(xs []Item) int {
 	viaPointer()
 	return xs[0].D - a
 }
+
+// --- per-iteration statements (loop N iteration) with call counting ---
+
+func visit(k int) {}
+
+// VisitsAll calls visit once in every pass.
+func VisitsAll(xs []int) {
+	for _, x := range xs {
+		visit(x)
+	}
+}
+
+// SkipsSome skips the call for some elements.
+func SkipsSome(xs []int) {
+	for _, x := range xs {
+		if x%2 == 0 {
+			continue
+		}
+		visit(x)
+	}
+}
